@@ -21,7 +21,7 @@ INVS = ['WindowIsRecent', 'StoredOnlyParticipants']
 TOG = dict(SlideOldest=True, StoreParticipantsOnly=True, SkipEmptyClusters=True, EvalReadOnly=True)
 
 
-def history(ctx, fedjax, rng, nrounds, window, nclusters, allow_empty_domain):
+def history(ctx, fedjax, rng, nrounds, window, nclusters, allow_empty_domain, backend=None):
   """Runs the three real algorithms on one random population and cohort sequence; returns the trace (or a finding)."""
   import jax  # pylint: disable=g-import-not-at-top
   ncl = rng.randint(3, 5)
@@ -42,10 +42,12 @@ def history(ctx, fedjax, rng, nrounds, window, nclusters, allow_empty_domain):
   dss = [fedjax.ClientDataset(dict(d.raw_examples, domain_id=np.array(dom[ci], np.int32).reshape(len(d)))) for ci, d in enumerate(dss)]
   ids = island.client_ids(ncl)
   offs = [0.0, 2.0, -2.0][:nclusters]
-  agn, agn_init, _ = algs.build(fedjax, 'agnostic_fed_avg', case, window=window, domain_lr=rng.choice([0.125, 0.5]), init_window=[1.0, 1.0])
-  apfl, apfl_init, _ = algs.build(fedjax, 'apfl', case, coef=rng.choice([0.0, 0.5, 1.0]), copt=fedjax.optimizers.sgd(rng.choice([0.25, 1.0, 4.0])))
-  # (a server optimizer with a step counter: an applied update is visible in the state even when the mean delta is zero)
-  hyp, hyp_init, _ = algs.build(fedjax, 'hyp_cluster', case, clusters=nclusters, offsets=offs, sopt=fedjax.optimizers.adam(0.125))
+  from fedjax.core import for_each_client as fec_mod  # pylint: disable=g-import-not-at-top
+  with fec_mod.for_each_client_backend(backend):      # the backend is bound when the algorithms are built
+    agn, agn_init, _ = algs.build(fedjax, 'agnostic_fed_avg', case, window=window, domain_lr=rng.choice([0.125, 0.5]), init_window=[1.0, 1.0])
+    apfl, apfl_init, _ = algs.build(fedjax, 'apfl', case, coef=rng.choice([0.0, 0.5, 1.0]), copt=fedjax.optimizers.sgd(rng.choice([0.25, 1.0, 4.0])))
+    # (a server optimizer with a step counter: an applied update is visible in the state even when the mean delta is zero)
+    hyp, hyp_init, _ = algs.build(fedjax, 'hyp_cluster', case, clusters=nclusters, offsets=offs, sopt=fedjax.optimizers.adam(0.125))
   p0 = island.params_tree(inst['init'])
   s_agn, s_apfl, s_hyp = agn_init(p0), apfl_init(p0), hyp_init(p0)
   events = []
@@ -119,7 +121,7 @@ def history(ctx, fedjax, rng, nrounds, window, nclusters, allow_empty_domain):
     events.append(ev)
   events.append({'e': 'End'})
   return {'events': events, 'meta': {'sizes': sizes, 'domains': dom, 'window': window, 'clusters': nclusters, 'notes': notes[:4],
-                                     'allow_empty_domain': allow_empty_domain}, 'consts': (nd, window, ncl, nclusters)}
+                                     'allow_empty_domain': allow_empty_domain, 'backend': backend or 'jit'}, 'consts': (nd, window, ncl, nclusters)}
 
 
 def run(ctx):
@@ -148,7 +150,7 @@ def run(ctx):
   # ---- leg T: real histories
   trs = []
   for i in range(40 if big else 10):
-    t = history(ctx, fedjax, rng, rng.randint(4, 8 if big else 6), rng.choice([1, 2, 3]), rng.choice([1, 2, 3]), allow_empty_domain=(i % 2 == 1))
+    t = history(ctx, fedjax, rng, rng.randint(4, 8 if big else 6), rng.choice([1, 2, 3]), rng.choice([1, 2, 3]), allow_empty_domain=(i % 2 == 1), backend=(None, 'pmap', 'debug')[i % 3])
     trs.append(t)
     ctx.case(key=('hist', i), nontrivial=any(0 in e.get('counts', [1]) or len(e.get('changed', [])) < t['consts'][3] for e in t['events']))
   groups = {}
